@@ -112,6 +112,28 @@ pub fn jwk(cex: &Value) -> Result<String, String> {
         }
       }
     }
+    // set_kty always leaves a coherent key (declared type = family of the parameters, nothing private carried over), also when
+    // the key it is applied to was incoherent (serde's untagged parameter enum lets such keys in) and the type is "unchanged"
+    for text in [r#"{"kty":"OKP","crv":"P-256","x":"eA","y":"eQ","d":"ZA"}"#, r#"{"kty":"EC","crv":"Ed25519","x":"eA","d":"ZA"}"#, r#"{"kty":"OKP","crv":"Ed25519","x":"eA","d":"ZA"}"#] {
+      if let Ok(k0) = serde_json::from_str::<Jwk>(text) {
+        for ty in [JwkType::Ec, JwkType::Okp, JwkType::Rsa, JwkType::Oct] {
+          let mut k2 = k0.clone();
+          k2.set_kty(ty);
+          let family = match k2.params() {
+            JwkParams::Ec(_) => JwkType::Ec,
+            JwkParams::Okp(_) => JwkType::Okp,
+            JwkParams::Rsa(_) => JwkType::Rsa,
+            JwkParams::Oct(_) => JwkType::Oct,
+          };
+          if k2.kty() != ty || family != ty {
+            log.push(format!("[coherence] set_kty({ty:?}) on {text}: declared {:?}, parameters of family {family:?}", k2.kty()));
+          }
+          if serde_json::to_string(&k2).map(|t| t.contains("\"d\":\"ZA\"")).unwrap_or(false) {
+            log.push(format!("[coherence] set_kty({ty:?}) on {text} keeps the private member"));
+          }
+        }
+      }
+    }
     let p = k.to_public().unwrap();
     if p.alg() != Some("EdDSA") || p.kid() != Some("kid") || p.use_() != Some(JwkUse::Signature) {
       log.push("[public] optional members not carried into the projection".into());
